@@ -13,6 +13,7 @@ package tlx
 //	(tlb.d pkg Type)                   -> ('opaque x<why>) | (descriptor x<coq term>)
 //	(tlb.r pkg Type n<seed> n<count>)  -> (value ...)       random in-domain values (tlbdesc.Rand)
 //	(tlb.e pkg Type value)             -> 'err | (cell decoded-value|'decode-err)
+//	(tlb.dicts pkg Type)               -> the dictionary-typed positions of the type with the descriptors of their value types (dicts.go)
 //	                                      tlb.Marshal(v); tlb.Unmarshal(cell)
 
 import (
@@ -223,6 +224,12 @@ func DriverMain(tls map[string]TlPkg, tlbs map[string]map[string]reflect.Type) {
 							return herr("tl.u arguments")
 						}
 						return tlUnmarshal(t, args[0].Bytes)
+					case "tlb.dicts":
+						t, ok := tlbs[pkg][name]
+						if !ok {
+							return herr("no type %s.%s", pkg, name)
+						}
+						return TlbDicts(t)
 					case "tlb.d", "tlb.r", "tlb.e":
 						e, ok := entry(pkg, name)
 						if !ok {
